@@ -26,10 +26,10 @@ CFG = [
     {"version": 1.2, "wrap": False, "len_numeric_field": -1, "header_width": 40},
 ]
 EXTRA = [
-    "~V\nVERS. 1.2: v\nWRAP. NO:\n~W\nSTRT.M 1.0: first\nSTOP.M 3.0: last\nSTEP.M 1.0: inc\nNull. -999.25: nul\nComp. the company: ACME\nWell. the well: W-1\n"
+    "~V\nVERS. 1.2: v\nWRAP. NO:\n~W\nSTRT.M 1.0: first\nSTOP.M 3.0: last\nSTEP.M 1.0: inc\nNull. -999.25: nul\nComp. the company: ACME\nWell. the well: W-1\nELEV.M elevation: 123.5\nLIC. licence number: 12345\n"
     "~C\nDEPT.M: d\nGR.: g\n~A\n1 10\n2 -999.25\n3 30\n",
     "~V\nVERS. 2.0:\nWRAP. NO:\n~W\nSTRT.M 1:\nSTOP.M 3:\nSTEP.M 1:\nNULL. -999.25: first null\nNULL. -999.25: repeated null\nWELL. a well: its description\n"
-    "UWI. 00123: unique id\n~C\nDEPT.M:\nGR.:\nGR.:\n~P\nstrt. 5: a parameter called like STRT\n~A\n1 10 11\n2 -999.25 21\n3 30 31\n",
+    "UWI. 00123: unique id\nELEV.M 123.5: elevation\nLIC. 12345: licence number\n~C\nDEPT.M:\nGR.:\nGR.:\n~P\nstrt. 5: a parameter called like STRT\n~A\n1 10 11\n2 -999.25 21\n3 30 31\n",
 ] + ["~V\nVERS. 2.0:\nWRAP. NO:\n~W\nSTRT.M 1:\nSTOP.M 2:\nSTEP.M 1:\nNULL. -999.25:\n~C\nDEPT.M:\n" + "".join("C%d.:\n" % j for j in range(1, n)) +
      "~A\n" + "".join(" ".join("%d.5" % (r * 100 + j) for j in range(n)) + "\n" for r in (1, 2)) for n in (7, 14, 24, 28, 35)]
 
@@ -64,7 +64,7 @@ def run(ctx):
     events, meta = [], []
     skipped = 0
     for name, text in sources:
-        for case in (("upper", "preserve") if (thorough or name.startswith(("gen", "extra"))) else (rng.choice(["upper", "preserve"]),)):
+        for case in (("upper", "preserve", "lower") if (thorough or name.startswith(("gen", "extra"))) else (rng.choice(["upper", "preserve", "lower"]),)):
             digs = {}
             ok = True
             for k in range(len(CFG)):
